@@ -249,6 +249,28 @@ Definition raise_whitelist : list (string * string * string) := [
    "Python attribute protocol: AttributeError for a missing attribute; hasattr()/getattr(default) callers rely on it")
 ].
 
+(* handlers that neither report nor re-raise: file, function, ordinal of the handler in the function, justification *)
+Definition silent_ok : list (string * string * nat * string) := [
+  ("myst_parser/config/dc_validators.py", "in_._validator", 0, "membership test on an unhashable value: falls through to the ValueError raised just below");
+  ("myst_parser/config/main.py", "read_topmatter", 0, "empty input: there is no front matter, None is returned");
+  ("myst_parser/mdit_to_docutils/base.py", "DocutilsRenderer.sphinx_env", 0, "no Sphinx environment on the settings object: the property returns None");
+  ("myst_parser/mdit_to_docutils/base.py", "DocutilsRenderer.add_line_and_source_path", 0, "a token without a source map has no line: node.line is left unset");
+  ("myst_parser/mdit_to_docutils/base.py", "DocutilsRenderer.render_code_block", 0, "non-integer lineno-start: the defaults (no line numbers) are kept");
+  ("myst_parser/mdit_to_docutils/base.py", "DocutilsRenderer.render_fence", 0, "non-integer lineno-start: the defaults (no line numbers) are kept");
+  ("myst_parser/mdit_to_docutils/base.py", "DocutilsRenderer.render_link_inventory", 1, "fewer than three ':' parts in the inventory path: the remaining filters stay None");
+  ("myst_parser/mdit_to_docutils/base.py", "DocutilsRenderer.dict_to_fm_field_list", 0, "value not serialisable as JSON: shown as str(value)");
+  ("myst_parser/mdit_to_docutils/sphinx_.py", "_is_file", 0, "a path the OS rejects is not a file (the caller then emits the pending_xref / xref_missing path)");
+  ("myst_parser/mdit_to_docutils/sphinx_.py", "SphinxRenderer._abs_path", 0, "destination with a NUL character: None is returned and every caller reports it as myst.xref_missing");
+  ("myst_parser/mdit_to_docutils/transforms.py", "CollectFootnotes.apply._sort_key", 0, "non-integer footnote label: sorted after the integer ones");
+  ("myst_parser/mocking.py", "MockIncludeDirective.run", 0, "no Sphinx environment: the include argument is used as a plain path");
+  ("myst_parser/parsers/directives.py", "_parse_directive_options", 2, "unknown option name: collected in unknown_options and reported by one warning after the loop");
+  ("myst_parser/parsers/docutils_.py", "Parser.parse", 1, "malformed front matter: reported as 'Malformed YAML' by render_front_matter during the render");
+  ("myst_parser/parsers/sphinx_.py", "MystParser.parse", 0, "malformed front matter: reported as 'Malformed YAML' by render_front_matter during the render");
+  ("myst_parser/parsers/parse_html.py", "HtmlToAst.parse_marked_section", 0, "html.parser asserts on an unknown marked section: the text is kept as data");
+  ("myst_parser/sphinx_ext/myst_refs.py", "MystReferenceResolver.run", 0, "builder without URIs: the reference is replaced by its content node");
+  ("myst_parser/sphinx_ext/myst_refs.py", "MystReferenceResolver.resolve_myst_ref_doc", 0, "builder without URIs: the inner node is used")
+].
+
 (* sites of defects that are open today: (file, function, callee, ordinal, finding signature) *)
 Definition open_sites : list (string * string * string * nat * string) := [
   (* none today.  History: until 3eadb40 the two urlparse() sites of render_link_url / render_link_inventory;
@@ -314,6 +336,21 @@ Definition rstmt_ok (r : rstmt) : bool :=
      if String.eqb c "<reraise>"
      then negb (match declared_of (r_file r) (r_func r) with [] => true | _ => false end)
      else covered c (r_handlers r) || covered c (declared_of (r_file r) (r_func r))) (r_classes r).
+
+(* handler bodies: a handler reports (warning / system message), or re-raises only classes that its function
+   declares (so that the function's call sites are checked against them), or is a justified silent fallback *)
+Definition handler_ok (h : hrow) : bool :=
+  in_out_scope (h_file h) (h_func h) ||
+  (if String.eqb (h_action h) "warn" then true
+   else if String.eqb (h_action h) "raise"
+        then forallb (fun c => covered c (declared_of (h_file h) (h_func h))) (h_reraised h)
+        else existsb (fun w => match w with (f, g, i, _) =>
+               String.eqb f (h_file h) && String.eqb g (h_func h) && Nat.eqb i (h_idx h) end) silent_ok).
+
+Definition silent_live : bool :=
+  forallb (fun w => match w with (f, g, i, _) =>
+     existsb (fun h => String.eqb f (h_file h) && String.eqb g (h_func h) && Nat.eqb i (h_idx h)
+                       && String.eqb (h_action h) "silent") handlers end) silent_ok.
 
 (* the classes a declared function lets escape are among raises(its callee key): the call
    sites of the function are then checked against them *)
